@@ -248,16 +248,29 @@ def run(ctx):
                       key=f"builtin {name} in {scen}", node=program.func("eval.py::AstEval.ast_name"), rel="eval.py")
     init = program.func("function.py::Function.init")
     mapping = {}
+    # the table Function.init installs is interpreted: each of print / log.* is called with an evaluator and must give that evaluator's logger's method
+    from ..flow import FlowInterp, FlowPolicy as _FP
+    from ..absint import Cfg, ClassV, Out
     for n in body_walk(init):
-        if isinstance(n, ast.Dict):
-            for k, v in zip(n.keys, n.values):
-                if isinstance(k, ast.Constant) and isinstance(k.value, str) and (k.value == "print" or k.value.startswith("log.")) and isinstance(v, ast.Lambda) and v.args.args:
-                    prm = v.args.args[0].arg
-                    b = v.body
-                    # lambda <ctx>: <ctx>.get_logger().<level>
-                    if isinstance(b, ast.Attribute) and isinstance(b.value, ast.Call) and isinstance(b.value.func, ast.Attribute) and b.value.func.attr == "get_logger" \
-                            and isinstance(b.value.func.value, ast.Name) and b.value.func.value.id == prm:
-                        mapping[k.value] = b.attr
+        if isinstance(n, ast.Dict) and any((isinstance(k, ast.Constant) and k.value == "print") for k in n.keys):
+            for key in ("print", "log.debug", "log.info", "log.warning", "log.error"):
+                polm = _FP(program, may_raise_all=False, cancel=False, summaries={"<ev>.get_logger": lambda i, nn, a, k, c, o: [(c, ObjV("script_logger", "Logger"))]})
+                polm.inline_depth = 4
+                polm.inline_nested = lambda fval: True  # the lambdas / closures of the table are what is being examined
+                im = FlowInterp(polm, "function.py")
+                im.unit = program.unit("function.py::Function.init")
+                im.call_stack.append(init)
+                call = ast.Call(func=ast.Subscript(value=n, slice=ast.Constant(key), ctx=ast.Load()), args=[ast.Name(id="$ev", ctx=ast.Load())], keywords=[])
+                ast.fix_missing_locations(ast.copy_location(call, n))
+                call._parent = getattr(n, "_parent", None)
+                try:
+                    res = im.ev(call, Cfg(env={"$ev": ObjV("ev", "AstEval"), "cls": ClassV("Function")}), Out())
+                except AnalysisError:
+                    res = []
+                vals = {repr(v) for _, v in res}
+                for level in ("debug", "info", "warning", "error"):
+                    if vals == {repr(Sym(("attr", "script_logger", level)))}:
+                        mapping[key] = level
     want_map = {"print": "debug", "log.debug": "debug", "log.info": "info", "log.warning": "warning", "log.error": "error"}
     ctx.check(all(mapping.get(k) == v for k, v in want_map.items()), "R17.3", "function.py::Function.init", "print and log.* are bound to the evaluator's own logger at the matching level",
               msg=f"Function.init maps {mapping}; documented: {want_map} on the logger of the evaluator that runs the code", key="print/log mapping", node=init, rel="function.py")
